@@ -778,7 +778,37 @@ singleDone:
 					}
 				}
 				dfs(ifi.Block(), ifi.Block().Succs[0])
+				_ = 0
 				c.Check(!skips, "C18.REMOTE", fmt.Sprintf("filterExistingRemotePaths|%s-error-keeps-path", lc.Call.Method.Name()), ifi.Pos(), "on a listing error the path is still kept", "when "+lc.Call.Method.Name()+" fails, the path is dropped from the pruned list: a transient storage error silently leaves that partition's file out of the query (the directory listing above keeps everything on error)")
+			}
+			// nothing is cached on the error side of ANY listing call of the function (a cached "unknown" reads back as "no children")
+			nErr := 0
+			for _, in := range instrs(fr, false) {
+				ifi, ok := in.(*ssa.If)
+				if !ok {
+					continue
+				}
+				bo, ok := ifi.Cond.(*ssa.BinOp)
+				if !ok || bo.Op != token.NEQ || !isNilConst(bo.Y) || !isErrorType(bo.X.Type()) {
+					continue
+				}
+				ex, ok := bo.X.(*ssa.Extract)
+				if !ok {
+					continue
+				}
+				lc, ok := ex.Tuple.(*ssa.Call)
+				if !ok || !lc.Call.IsInvoke() {
+					continue
+				}
+				nErr++
+				errSide := ifi.Block().Succs[0]
+				cached := false
+				for _, call := range callsIn(fr, false) {
+					if strings.HasSuffix(callName(call), "globCache).set") && errSide.Dominates(call.Block()) {
+						cached = true
+					}
+				}
+				c.Check(!cached, "C18.REMOTE", fmt.Sprintf("filterExistingRemotePaths|%s-error-not-cached#%d", lc.Call.Method.Name(), nErr), ifi.Pos(), "a failed listing is not cached", "the error branch of "+lc.Call.Method.Name()+" stores something in the glob cache: `unknown` is read back for 30 s as `this parent has no children`, and every partition under it is silently dropped from the following statements")
 			}
 			c.Check(n >= 1, "C18.REMOTE", "filterExistingRemotePaths|listing-error-branches", fr.Pos(), fmt.Sprintf("%d listing error branch(es) inside the keep loop inspected", n), "no listing error branch found inside the keep loop")
 		}
